@@ -82,7 +82,10 @@ fn run(req: &str) -> Option<String> {
         m if m.starts_with('M') => (true, Some(Jitter::new(m[1..].parse().ok()?))),
         _ => return None,
     };
-    let policy = match toks[2] {
+    // a trailing `r`: the WINDOW blocks are written in the WHERE clause in the reverse of their declaration order (and
+    // the static pattern first), which must not matter
+    let reversed = toks[2].ends_with('r');
+    let policy = match toks[2].trim_end_matches('r') {
         "W" => SyncPolicy::Wait,
         "X" => SyncPolicy::Steal,
         "TS" => SyncPolicy::Timeout { duration: Duration::from_millis(3), fallback: Fallback::Steal },
@@ -109,10 +112,17 @@ fn run(req: &str) -> Option<String> {
         text.push_str(&format!("FROM NAMED WINDOW :w{} ON :s{} [RANGE {} STEP {}]\n", i, w.stream, w.width, w.slide));
     }
     text.push_str("WHERE {\n");
-    for (i, w) in wins.iter().enumerate() {
-        text.push_str(&format!("  WINDOW :w{} {{ {}}}\n", i, pats_text(&w.pats)));
+    if reversed && !static_pats.is_empty() {
+        text.push_str(&format!("  {}\n", pats_text(&static_pats)));
     }
-    if !static_pats.is_empty() {
+    let mut order: Vec<usize> = (0..wins.len()).collect();
+    if reversed {
+        order.reverse();
+    }
+    for i in order {
+        text.push_str(&format!("  WINDOW :w{} {{ {}}}\n", i, pats_text(&wins[i].pats)));
+    }
+    if !reversed && !static_pats.is_empty() {
         text.push_str(&format!("  {}\n", pats_text(&static_pats)));
     }
     text.push_str("}");
@@ -226,6 +236,12 @@ impl C11 {
         stats.hit(if multi { "mode_multi" } else { "mode_single" });
         let policy = *rng.pick(&["W", "W", "W", "X", "X", "TS", "TD"]);
         stats.hit(&format!("policy_{}", policy));
+        let policy = if rng.chance(1, 3) {
+            stats.hit("blocks_in_reverse_order");
+            format!("{}r", policy)
+        } else {
+            policy.to_string()
+        };
         let shared_vocab = rng.chance(1, 2);
         stats.hit(if shared_vocab { "vocab_shared" } else { "vocab_disjoint" });
         let (pa, pb): (Vec<u32>, Vec<u32>) = if shared_vocab { (vec![10, 11, 12], vec![10, 11, 12]) } else { (vec![10, 11], vec![12, 13]) };
